@@ -36,9 +36,42 @@ fn space(b: Expr, k: usize) -> ForestSpace {
         Stmt::Repeat(random(lit(3)), vec![l(0), l(0), p(name("n"))]),
         Stmt::ResetRandom,
         Stmt::Declare("W".into(), r()),
+        // an empty range: an error item; the caller carries on and later draws continue the stream
+        Stmt::Row(vec![p(r()), p(random(lit(0))), l(0)]),
     ];
     let blocks = vec![Block::Loop("i".into(), lit(2)), Block::Loop("i".into(), random(lit(3))), Block::While(bin(BinOp::Lt, random(lit(3)), lit(2)))];
     ForestSpace::new(atoms, blocks, 2, k)
+}
+
+thread_local! {
+    static STREAMS: std::cell::RefCell<std::collections::HashMap<(u64, Vec<i64>), Vec<i64>>> = std::cell::RefCell::new(std::collections::HashMap::new());
+}
+
+/// Values drawn by `let x = random(b1); let x = random(b2); ...` under `seed` (cached per thread)
+fn straight_line_stream(sigs: &[Sig], script: &[Step], seed: u64, bounds: &[i64]) -> Vec<i64> {
+    let key = (seed, bounds.to_vec());
+    if let Some(v) = STREAMS.with(|m| m.borrow().get(&key).cloned()) {
+        return v;
+    }
+    let mut body = vec![Stmt::Declare("V".into(), lit(0))];
+    for b in bounds {
+        body.push(Stmt::Let("x".into(), random(lit(*b))));
+    }
+    body.push(Stmt::Row(vec![Entry::Lit(0, Radix::Dec), Entry::Lit(0, Radix::Dec), Entry::Lit(0, Radix::Dec)]));
+    let prog = Program { header: vec!["A".into(), "B".into(), "V".into()], body };
+    let mut opts = RunOpts::new(2);
+    opts.repeat_last = true;
+    opts.seed = seed;
+    let obs = run_dynamic(&text(&prog), sigs, true, script, &opts);
+    let v: Vec<i64> = obs.draws.iter().filter_map(|d| if let DrawEvent::Draw { value, .. } = d { Some(*value) } else { None }).collect();
+    STREAMS.with(|m| {
+        let mut m = m.borrow_mut();
+        if m.len() > 200_000 {
+            m.clear();
+        }
+        m.insert(key, v.clone());
+    });
+    v
 }
 
 fn bounds() -> Vec<(String, Expr)> {
@@ -93,6 +126,7 @@ pub fn run(tier: Tier, seed: u64) -> i32 {
                     opts.repeat_last = true;
                     opts.seed = sd;
                     opts.budget = 20_000;
+                    opts.continue_after_error = true;
                     let obs = match &tc {
                         Ok(tc) => run_loaded(tc, &sigs, true, &script, &opts),
                         Err(i) => not_loaded(i),
@@ -124,8 +158,12 @@ pub fn run(tier: Tier, seed: u64) -> i32 {
                     let mut env = ScriptEnv::new(&script);
                     env.repeat_last = true;
                     env.draws = &values;
-                    let r = crate::refsem::run(&prog, &sigs, &mut env, Fuel { steps: 3000, rows: 70 });
+                    let r = crate::refsem::run_opts2(&prog, &sigs, &mut env, Fuel { steps: 3000, rows: 70 }, true, true);
                     let (draw_pos, marks, rb) = (env.draw_pos, env.draw_marks.clone(), env.bounds_seen.clone());
+                    let first_error = r.items.iter().position(|i| matches!(i, RefItem::ExprErr(_)));
+                    if first_error.is_some() {
+                        st.witness("caller_carries_on_after_an_empty_range_error");
+                    }
                     if r.end == RefEnd::Fuel {
                         st.out_of_scope += 1;
                         continue;
@@ -144,7 +182,15 @@ pub fn run(tier: Tier, seed: u64) -> i32 {
                         continue;
                     }
                     let proj = Proj { input_values: true, expected: true, output: true, checked_kind: true, lines: false, vars: false, verdicts: false };
-                    if let Some((_, m)) = run_mismatch(&r, &obs, proj, None) {
+                    let mm = run_mismatch(&r, &obs, proj, None);
+                    // what follows an error item is only compared if rows are yielded at all
+                    if let (Some((k, _)), Some(fe)) = (&mm, first_error) {
+                        if *k > fe && !obs.items.get(*k).map(|i| i.is_row()).unwrap_or(false) {
+                            st.out_of_scope += 1;
+                            continue;
+                        }
+                    }
+                    if let Some((_, m)) = mm {
                         fail(st, &format!("rows differ from the literal program ({})", classify(&m)), format!("with the drawn values written as literals the reference gives a different run: {m}"), ref_items_brief(&r));
                         continue;
                     }
@@ -205,6 +251,34 @@ pub fn run(tier: Tier, seed: u64) -> i32 {
                     if let Some(m) = bad {
                         fail(st, "resetRandom does not replay", m, vec![]);
                         continue;
+                    }
+                    // (v) the k-th evaluation gets the k-th value of the generator's stream: the same bounds
+                    // drawn by a straight-line program (let x = random(b1); let x = random(b2); ...)
+                    // under the same seed give the same values
+                    if !stream.is_empty() {
+                        let sb: Vec<i64> = stream.iter().map(|x| x.0).collect();
+                        let want = straight_line_stream(&sigs, &script, sd, &sb);
+                        let got: Vec<i64> = stream.iter().map(|x| x.1).collect();
+                        st.witness("stream_compared_with_a_straight_line_program");
+                        if want != got {
+                            let pos = want.iter().zip(got.iter()).position(|(a, b)| a != b).unwrap_or(want.len().min(got.len()));
+                            fail(st, "draws are not the generator's stream", format!("stream: draw {pos} (bound {}) is {:?}; a straight-line program drawing with the same bounds under the same seed gets {:?} there: the generator was restarted, copied or advanced by something other than an evaluation of random", sb.get(pos).copied().unwrap_or(0), got.get(pos), want.get(pos)), vec![]);
+                            continue;
+                        }
+                    }
+                    // (vi) the read-only methods of the iterator (size_hint, vars) do not draw
+                    if si == 1 {
+                        let mut o2 = opts.clone();
+                        o2.poke = true;
+                        let obs2 = match &tc {
+                            Ok(tc) => run_loaded(tc, &sigs, true, &script, &o2),
+                            Err(i) => not_loaded(i),
+                        };
+                        st.witness("size_hint_and_vars_called_between_the_rows");
+                        if obs2.draws != obs.draws || obs2.items != obs.items {
+                            fail(st, "size_hint()/vars() change the run", "calling size_hint() and vars() before every next() changes the draws or the rows of the run".into(), vec![]);
+                            continue;
+                        }
                     }
                     // (iv) same seed, same log
                     if si == 0 {
@@ -286,7 +360,7 @@ pub fn run(tier: Tier, seed: u64) -> i32 {
             "bounds and seeds are fixed boundary sets (2, 3, 10, 2^31, 2^32+1, 2^62, a device-computed bound; 7 fixed seeds + 4 derived from VERIF_SEED); DESIGN section 10".into(),
             "runs longer than 64 rows (while(random(3)<2) under an unlucky seed) are out of scope".into(),
         ],
-        required_witnesses: vec!["hundreds_of_draws_and_repeated_resets", "run_with_draws", "reset_between_draws", "draw_replayed_after_reset", "same_seed_rerun"],
+        required_witnesses: vec!["hundreds_of_draws_and_repeated_resets", "run_with_draws", "reset_between_draws", "draw_replayed_after_reset", "same_seed_rerun", "stream_compared_with_a_straight_line_program", "size_hint_and_vars_called_between_the_rows", "caller_carries_on_after_an_empty_range_error"],
         exhaustive_note: "all programs x bounds x seeds within the bounds".into(),
         e1: false,
     };
